@@ -114,7 +114,30 @@ func rulesReadNCBI(c *Ctx, r *Report, rd, ex *ssa.Function) {
 	// CELL: m[[2]byte{rowLabel, chars[j]}] = ParseFloat(values[j+1], 64), values[0] being the row label's text
 	okCell := false
 	cellWhy := "no map update with a ParseFloat value found"
+	// the store may live in a helper stage of ReadNCBI: its expressions are read with the helper's parameters
+	// replaced by what ReadNCBI passes
+	type scope struct {
+		fn *ssa.Function
+		sy *symb
+	}
+	scopes := []scope{{rd, s}}
 	instrs(rd, func(in ssa.Instruction) {
+		if cl, ok := in.(*ssa.Call); ok {
+			if g := cl.Call.StaticCallee(); g != nil && g.Blocks != nil && c.inModule(g) && g != ex && funcPkgPath(g) == funcPkgPath(rd) {
+				sub := newSymb(g)
+				for i, p := range g.Params {
+					if i < len(cl.Call.Args) {
+						sub.subst[p] = s.expr(cl.Call.Args[i])
+					}
+				}
+				scopes = append(scopes, scope{g, sub})
+			}
+		}
+	})
+	for _, sc := range scopes {
+		s := sc.sy
+		_ = s
+	instrs(sc.fn, func(in ssa.Instruction) {
 		mu, ok := in.(*ssa.MapUpdate)
 		if !ok {
 			return
@@ -190,6 +213,7 @@ func rulesReadNCBI(c *Ctx, r *Report, rd, ex *ssa.Function) {
 			cellWhy = fmt.Sprintf("row label from element 0 of the same value list: %v; value index = column index + 1: %v (value %s, column %s)", rowOK, colOK, elem.String(), el[1].String())
 		}
 	})
+	}
 	r.check(okCell, "CELL", where, "score cell", c.pos(rd.Pos()), "the score stored under {row label, column label i} is ParseFloat(value i of the row, 64)", "the stored cell is not m[{rowLabel, chars[j]}] = ParseFloat(values[j+1], 64): "+cellWhy)
 	// COMMENT-RAW
 	okRaw := false
